@@ -508,3 +508,67 @@ func init() {
 			x.C.Count("stored objects read back in memory.DB", total)
 		}})
 }
+
+func init() {
+	register(&Rule{ID: "REC", Min: 10, Text: "rows are written complete: every record that the memory backend inserts as a composite literal (txn.Insert(table, &T{…})) sets every field of its type, except the fields listed as optional with the reason — a field left out of the literal is stored as its zero value (a change without its version vector, a client record without its epoch)",
+		Run: func(x *Ctx) {
+			optional := map[string]string{
+				"ChangeInfo.Message":          "",
+				"DocInfo.RemovedAt":           "set only by removal",
+				"DocInfo.CompactedAt":         "set only by compaction",
+				"DocInfo.Schema":              "set by UpdateDocInfoSchema",
+				"DocInfo.Epoch":               "starts at 0",
+				"DocInfo.ServerSeq":           "starts at 0",
+				"DocInfo.UpdatedAt":           "",
+				"UserInfo.HashedPassword":     "GitHub accounts have no password",
+				"VersionVectorInfo.ProjectID": "rows are keyed by the globally unique document id; the field is not filled by this backend on the pinned tree",
+				"VersionVectorInfo.ServerSeq": "not used by this backend on the pinned tree",
+				"VersionVectorInfo.ID":        "assigned right after the literal (new id or the existing row's)",
+			}
+			n := 0
+			for _, fn := range x.P.FuncsIn(memPkg) {
+				cnt := map[string]int{}
+				for _, c := range prog.CallsIn(fn) {
+					o := prog.CallObj(c)
+					if o == nil || o.Name() != "Insert" || recvOf(c) == nil || !isMemdbTxn(recvOf(c).Type()) {
+						continue
+					}
+					al, ok := prog.Strip(c.Common().Args[len(c.Common().Args)-1]).(*ssa.Alloc)
+					if !ok || al.Comment != "complit" {
+						continue
+					}
+					un := namedOf(al.Type())
+					if un == nil {
+						continue
+					}
+					ust, ok := un.Underlying().(*types.Struct)
+					if !ok {
+						continue
+					}
+					set := map[string]bool{}
+					for _, r := range *al.Referrers() {
+						if fa, ok := r.(*ssa.FieldAddr); ok {
+							for _, rr := range *fa.Referrers() {
+								if s2, ok := rr.(*ssa.Store); ok && s2.Addr == ssa.Value(fa) {
+									set[prog.FieldVar(fa).Name()] = true
+								}
+							}
+						}
+					}
+					cnt[un.Obj().Name()]++
+					for i := 0; i < ust.NumFields(); i++ {
+						uf := ust.Field(i)
+						key := un.Obj().Name() + "." + uf.Name()
+						n++
+						k := fmt.Sprintf("func=%s insert=%s#%d field=%s", prog.FnName(fn), un.Obj().Name(), cnt[un.Obj().Name()], uf.Name())
+						if _, ok := optional[key]; ok && !set[uf.Name()] {
+							x.C.Add(obTrivial(x.id(), k, x.pos(al), "optional: "+optional[key]))
+							continue
+						}
+						x.check(set[uf.Name()], k, x.pos(al), "set in the inserted row", "the inserted "+un.Obj().Name()+" does not set "+uf.Name()+": the row is stored without it")
+					}
+				}
+			}
+			x.C.Count("fields of inserted record literals", n)
+		}})
+}
